@@ -13,16 +13,16 @@ import (
 
 func main() {
 	var (
-		worker = flag.Bool("worker", false, "run as worker")
-		prop   = flag.String("prop", "", "property id")
-		tier   = flag.String("tier", "quick", "quick|thorough")
-		seed   = flag.Int64("seed", 0, "seed")
-		wid    = flag.Int("wid", 0, "worker id")
-		nw     = flag.Int("nw", 1, "number of workers")
-		out    = flag.String("out", "", "worker output dir")
-		replay = flag.String("replay", "", "replay file")
-		verif  = flag.String("verif", "/verif", "verif dir")
-		level  = flag.String("level", "exploration", "evidence level")
+		worker  = flag.Bool("worker", false, "run as worker")
+		prop    = flag.String("prop", "", "property id")
+		tier    = flag.String("tier", "quick", "quick|thorough")
+		seed    = flag.Int64("seed", 0, "seed")
+		wid     = flag.Int("wid", 0, "worker id")
+		nw      = flag.Int("nw", 1, "number of workers")
+		out     = flag.String("out", "", "worker output dir")
+		replay  = flag.String("replay", "", "replay file")
+		verif   = flag.String("verif", "/verif", "verif dir")
+		level   = flag.String("level", "exploration", "evidence level")
 		workers = flag.Int("workers", 0, "supervisor: number of workers (0 = all cores)")
 	)
 	flag.Parse()
